@@ -127,6 +127,11 @@ def run(ctx):
             signer = 'initiator' if role == 'responder' else 'responder'
             check_site(ctx, fi, c, signer, verify=True, msgp=msgp, idtype=idtype)
 
+    # the primitives the AUTH computation rests on: prf is HMAC (key pad, AUTH value, identity hash), SK_pi / SK_pr are the prf-sized
+    # tail of the key material (shared with C04 K1 / K3)
+    from .c04 import prf_is_hmac, ike_keyring_split
+    prf_is_hmac(ctx, 'G3')
+    ike_keyring_split(ctx, 'G3')
     # ---------------------------------------------------------------- G3 generate sites
     gen_req = ctx.func('ikesa.IkeSa.generate_ike_auth_request')
     sites = [(gen_req, 'initiator', 'PayloadIDi'), (ctx.func(AUTH_REQ), 'responder', 'PayloadIDr')]
